@@ -22,7 +22,7 @@ theorem readTokens_of_run {s s' : RState} {toks : List Token} (h : Run s toks s'
     cases fuel with
     | zero => simp at hf
     | succ k =>
-      have := st s.dec.rest.length
+      have := st.1 s.dec.rest.length
       simp only [readTokens, this]
       rw [ih hend k (by simp at hf; omega)]
 
